@@ -28,36 +28,7 @@
 (*   "no_flush_empty"   no flush after a message whose output is empty     *)
 (*   "close_ignores_payload"  Close reports only a partial envelope        *)
 (***************************************************************************)
-EXTENDS Integers, Sequences, FiniteSets, TLC
-
-CONSTANTS
-    ServerEnv,      \* BOOLEAN: the backend's protocol frames messages with envelopes
-    ClientEnv,      \* BOOLEAN: the client's protocol does
-    Lens,           \* payload lengths of the backend's messages, e.g. <<2, 0, 1>>
-    OutLens,        \* lengths after the transformation; -1: the message cannot be transformed (undecodable)
-    TrailerLen,     \* -1: no in-body end frame; else payload length of the backend's end-of-stream frame
-    Limit,          \* the service's message buffer limit L
-    Cuts,           \* BOOLEAN: also explore every point at which the handler stops writing
-    MaxWrite,       \* largest single Write
-    Variant
-
-EnvLen == 5
-NMsg == Len(Lens)
-TM == 99
-
-Env(m)  == [i \in 1..EnvLen |-> <<"e", m, i>>]
-CEnv(m) == [i \in 1..EnvLen |-> <<"E", m, i>>]
-Pay(m)  == [j \in 1..Lens[m] |-> <<"p", m, j>>]
-OPay(m) == [j \in 1..OutLens[m] |-> <<"P", m, j>>]
-TPay    == [j \in 1..TrailerLen |-> <<"t", 0, j>>]
-
-RECURSIVE Concat(_)
-Concat(ss) == IF ss = <<>> THEN <<>> ELSE Head(ss) \o Concat(Tail(ss))
-
-HandlerStream ==
-    IF ServerEnv THEN Concat([m \in 1..NMsg |-> Env(m) \o Pay(m)]) \o (IF TrailerLen >= 0 THEN Env(TM) \o TPay ELSE <<>>)
-    ELSE Concat([m \in 1..NMsg |-> Pay(m)])
-BodyLen == Len(Concat([m \in 1..NMsg |-> Pay(m)]))
+EXTENDS FramingTCore
 
 VARIABLES
     CutAt, hsrc,
@@ -74,11 +45,8 @@ VARIABLES
     maxbuf      \* high-water mark of Len(w.buffer)   (history, for C10)
 vars == <<CutAt, hsrc, started, buf, expecting, we, latest, out, flushes, err, reported, ended, closed, maxbuf>>
 
-Take(s, k) == SubSeq(s, 1, k)
-Drop(s, k) == SubSeq(s, k + 1, Len(s))
 Cut == CutAt >= 0 /\ CutAt < Len(HandlerStream)
 Wire == IF Cut THEN Take(HandlerStream, CutAt) ELSE HandlerStream
-Max2(a, b) == IF a > b THEN a ELSE b
 
 \* an un-enveloped backend's body is one message (message 1 for the client), transformed as a whole
 InLen(m)  == IF ServerEnv THEN Lens[m] ELSE Len(Wire)
@@ -88,7 +56,6 @@ NOut == IF ServerEnv THEN NMsg ELSE 1
 Carried(m) == InLen(m) <= Limit /\ OutLens[m] >= 0 /\ (ClientEnv => OutLens[m] <= Limit)
 \* the longest prefix of messages that are all carried
 GoodUpTo == CHOOSE j \in 0..NOut : (\A m \in 1..j : Carried(m)) /\ (j = NOut \/ ~Carried(j + 1))
-OutMsg(m) == (IF ClientEnv THEN CEnv(m) ELSE <<>>) \o OPay(m)
 Canon == Concat([m \in 1..GoodUpTo |-> OutMsg(m)])
 
 Init ==
@@ -100,79 +67,21 @@ Init ==
 St == [buf |-> buf, expecting |-> expecting, we |-> we, latest |-> latest, out |-> out, flushes |-> flushes,
        err |-> err, reported |-> reported, ended |-> ended, maxbuf |-> maxbuf]
 
-\* w.reset()
-Reset(st) ==
-    IF ServerEnv THEN [st EXCEPT !.buf = <<>>, !.expecting = EnvLen, !.we = TRUE]
-    ELSE [st EXCEPT !.buf = <<>>, !.expecting = -1]
-
-Fail(st, what) == [st EXCEPT !.err = what, !.reported = IF st.reported = "" THEN what ELSE st.reported]
-
-Grow(st, data) == LET b == st.buf \o data IN [st EXCEPT !.buf = b, !.maxbuf = Max2(st.maxbuf, Len(b))]
-
-Decoded(slots) ==
-    IF \E m \in (1..NMsg) \cup {TM} : slots = Env(m) THEN CHOOSE m \in (1..NMsg) \cup {TM} : slots = Env(m) ELSE -1
-
-\* flushMessage for a complete data message m held in st.buf
-FlushData(st, m) ==
-    IF OutLens[m] < 0 THEN Fail(st, "transform")                                  \* advanceToStage fails
-    ELSE IF ClientEnv /\ OutLens[m] > Limit THEN Fail(st, "resource_exhausted")   \* the re-encoded length
-    ELSE LET o == st.out \o OutMsg(m)
-             fl == IF Variant = "no_flush_empty" /\ OutLens[m] = 0 THEN st.flushes ELSE Append(st.flushes, Len(o))
-         IN Reset([st EXCEPT !.out = o, !.flushes = fl])
-
-RECURSIVE Loop(_, _)
-Loop(st, data) ==
-    IF st.err # "" THEN st
-    ELSE LET remaining == st.expecting - Len(st.buf) IN
-    IF Len(data) < remaining THEN Grow(st, data)
-    ELSE LET s1 == Grow(st, Take(data, remaining))
-             rest == Drop(data, remaining) IN
-         IF s1.we THEN
-            LET m == Decoded(s1.buf) IN
-            IF m = -1 THEN Fail(s1, "malformed envelope")
-            ELSE LET len == IF m = TM THEN TrailerLen ELSE Lens[m] IN
-                 IF Variant # "limit_at_flush" /\ len > Limit THEN Fail(s1, "resource_exhausted")
-                 ELSE Loop([s1 EXCEPT !.buf = <<>>, !.expecting = len, !.we = FALSE, !.latest = m], rest)
-         ELSE IF s1.latest = TM THEN
-              \* the backend's end frame: decoded and reported, nothing more is accepted
-              [s1 EXCEPT !.ended = TRUE, !.err = "final data already written", !.expecting = EnvLen, !.we = TRUE]
-         ELSE IF Variant = "limit_at_flush" /\ Len(s1.buf) > Limit THEN Fail(s1, "resource_exhausted")
-         ELSE Loop(FlushData(s1, s1.latest), rest)
-
 Apply(st) ==
     /\ buf' = st.buf /\ expecting' = st.expecting /\ we' = st.we /\ latest' = st.latest /\ out' = st.out
     /\ flushes' = st.flushes /\ err' = st.err /\ reported' = st.reported /\ ended' = st.ended /\ maxbuf' = st.maxbuf
 
-\* the body of Write(data) after the w.err check
-WriteBody(s0, data) ==
-    IF s0.expecting = -1 THEN
-        IF Len(data) + Len(s0.buf) > Limit THEN Fail(s0, "resource_exhausted") ELSE Grow(s0, data)
-    ELSE Loop(s0, data)
-
 Write(k) ==
     /\ ~closed /\ k <= Len(hsrc)
     /\ hsrc' = Drop(hsrc, k)
-    /\ IF err # "" THEN UNCHANGED <<started, buf, expecting, we, latest, out, flushes, err, reported, ended, maxbuf>>
-       ELSE /\ started' = TRUE
-            /\ Apply(WriteBody(IF started THEN St ELSE Reset(St), Take(hsrc, k)))
+    /\ started' = (started \/ err = "")
+    /\ Apply(WriteStep(St, started, Take(hsrc, k)))
     /\ UNCHANGED <<CutAt, closed>>
 
-\* responseWriter.close(): w.w.Write(nil), then Close()
 Close ==
     /\ ~closed /\ hsrc = <<>>
     /\ closed' = TRUE /\ started' = TRUE
-    /\ LET s0 == IF err # "" THEN St ELSE WriteBody(IF started THEN St ELSE Reset(St), <<>>)
-           s1 == IF s0.expecting = -1 THEN
-                    \* the whole body is the one message
-                    IF s0.err # "" THEN s0
-                    ELSE IF OutLens[1] < 0 THEN Fail(s0, "transform")
-                    ELSE IF ClientEnv /\ OutLens[1] > Limit THEN Fail(s0, "resource_exhausted")
-                    ELSE LET o == s0.out \o OutMsg(1) IN [s0 EXCEPT !.out = o, !.flushes = Append(s0.flushes, Len(o))]
-                 ELSE IF s0.err = "" /\ (Len(s0.buf) > 0 \/ (~s0.we /\ s0.expecting > 0))
-                         /\ (Variant = "close_ignores_payload" => s0.we)
-                      THEN Fail(s0, IF s0.we THEN "partial envelope" ELSE "unfinished message")
-                 ELSE s0
-       IN Apply([s1 EXCEPT !.expecting = 0, !.buf = <<>>, !.err = "body is closed"])
+    /\ Apply(CloseStep(St, started))
     /\ UNCHANGED <<CutAt, hsrc>>
 
 Done == closed /\ UNCHANGED vars
@@ -199,7 +108,7 @@ CutIsReported ==
     (closed /\ Cut) =>
         \/ reported # ""
         \/ ServerEnv /\ Boundary(CutAt)        \* on a message boundary: a missing end is responseWriter.close's to report
-        \/ ~ServerEnv                           \* an un-framed body has no "middle"
+        \/ ~ServerEnv /\ ~DeclaredLen          \* an un-framed body of undeclared length has no "middle"
 
 \* C10: the adapter never holds more than L bytes of a message (five for an envelope), and a message that does
 \* not fit - as announced, as received or as re-encoded - ends the RPC with resource_exhausted, undelivered
